@@ -117,6 +117,11 @@ def make_stub(name, contract, log, pysig=None):
                 raise Unsupported(f"keyword call of generic function {name}")
             ba = pysig.bind(*args, **kwargs)
             args = tuple(ba.arguments.values())
+        from cola.linalg.algorithm_base import Algorithm as _Alg
+        for j, a in enumerate(args):
+            if isinstance(a, type) and issubclass(a, _Alg):
+                # plum dispatches on the types of instances: a class object matches no `Algorithm` annotation, so no rule of the callee applies
+                CTX.require(z3.BoolVal(False), f"callee-pre {name}: argument {j} is an algorithm object (the class {a.__name__} itself was passed: no rule applies)")
         for label, fm in contract.requires(*args):
             ok = CTX.require(fm if not isinstance(fm, bool) else z3.BoolVal(fm), f"callee-pre {name}: {label}")
         log.append((name, args))
